@@ -118,3 +118,8 @@ Definition holds_conc (cap : Z) (pre msgs : list (Z * list Z)) (o : cobs) : bool
       | _ => false
       end
   end.
+
+(* histories with lag jumps (Spec/LossyJump.v): same judgement, against the channel with gaps *)
+Require Import V.Spec.LossyJump.
+Definition holds_jseq (cap c0 : Z) (pre : list (Z * list Z)) (h : list jop) (o : list sobs) : bool :=
+  all_match o (map show_obs (sjrun_history cap c0 pre h)).
